@@ -639,8 +639,10 @@ LEVEL_TEXT = (
     "call-graph non-reachability of any lowering from the name/key accessors (so optimization cannot change the name), "
     "dataflow check that the advertised keys are (raw name, block index over numblocks) and that the graph is drawn from "
     "the materialized expression, a def-use rule that every key emitted by the 30+ _layer/_task bodies names a node in "
-    "self's dependency closure, and exhaustiveness of layer/lowering over all 111 expression classes. Acyclicity and "
-    "per-layer key arithmetic are not decided."
+    "self's dependency closure, exhaustiveness of layer/lowering over all 111 expression classes, who-may-define the nested key grid, "
+    "same-binding agreement between hand-merged sub-graphs and the keys referenced, and a coverage rule that every class whose layer pairs "
+    "the blocks of several operands (or enumerates a chunks literal) declares grid sensitivity. Acyclicity and per-layer key arithmetic "
+    "are not decided."
 )
 LEVEL_NOTE = (
     "Trusted: CPython ast, engine call graph (exact edges for the NOREACH rule plus a textual scan for lowering entry "
